@@ -99,7 +99,7 @@ CHECKS = {
         technique="Lean 4 invariant proofs over the CPU bookkeeping + differential ovniemu runs + recomputation oracle",
         design="DESIGN.md §5 C05"),
     "C06": dict(
-        text=("Theorems (Props/C06.lean, 77) over a mechanism-level transcription of bay.c (growing dirty list processed by index, "
+        text=("Theorems (Props/C06.lean, 93) over a mechanism-level transcription of bay.c (growing dirty list processed by index, "
               "ordered enabled-callback lists, dirty/emit/flush phases), mux.c (cb_select, cb_input, DIRTY_WRITE/ALLOW_DUP "
               "outputs), track.c, thread_select_running/active and connect_cpu: for ONE mux in any network satisfying the frame "
               "condition, any set of writes to the select and input channels in any order followed by propagation with ANY order "
@@ -123,8 +123,12 @@ CHECKS = {
               "exactly the model rows of View.records, system rows being written exactly (emit_step, emu_event_emit, "
               "emu_event_sys, emu_step_lines, emu_run_emit_driver); the literal equality lines = records is refuted by decide "
               "examples (first emission of null, re-selected EMITDUP/SKIPDUPNULL channels). The task-layer hook of nOS-V/"
-              "Nanos6 is proved to be bay writes (hookSim_task, emu_event_task). OPEN: coupling of the task layer's own channel "
-              "copy with the thread channels along a history; PRV_ZERO channels. Tie: X1 the real chan.c/"
+              "Nanos6 is proved to be bay writes (hookSim_task, emu_event_task), and the task layer's copy of the task channels "
+              "is proved equal to the thread's real channels along every accepted history (Coupled, coupled_init, coupled_step, "
+              "coupled_history; coupled_verdicts: each check on the copy has the verdict of the C channel operation; "
+              "task_hook_accepts_iff; emu_history_task_coupled, emu_run_task_driver). PRV_ZERO registrations are covered "
+              "bay-side and for one emulator step (emit_step_zero, emit_step_zero_emu). OPEN: one task state per replay (single "
+              "model and process), PRV_ZERO in the history-level emit theorems, chained muxes. Tie: X1 the real chan.c/"
               "bay.c/mux.c/track.c in an ASan/UBSan harness vs the Lean bay on random networks (values, last values, dirty "
               "flags, selected/enabled inputs, dirty-list and emit order) plus a spec oracle; X2 ovniemu vs the reference "
               "emulator and independent oracles recomputing every thread row from the raw history and every CPU row from the "
@@ -255,7 +259,7 @@ CHECKS = {
         technique="Lean 4 theorems over a byte-level cursor with adversarial out-of-file memory + single-corruption differential runs",
         design="DESIGN.md §5 C12"),
     "C13": dict(
-        text=("Theorems (Props/C13.lean, 25) over the Paraver writer model (prv_advance guard, lines written at the current "
+        text=("Theorems (Props/C13.lean + Props/C13Text.lean, 36) over the Paraver writer model (prv_advance guard, lines written at the current "
               "time, header rewritten at close) and the record generation of the reference emulator: for every accepted "
               "sequence of steps the lines are in non-decreasing time order, none is later than the header duration, which is "
               "the clock of the last step (prv_times_monotone), a backwards step is refused; every record belongs to the row "
@@ -267,9 +271,17 @@ CHECKS = {
               "(records_error_only_zero); the .row file has one name per row. Tie: on every "
               "accepted generated trace independent Python parsers check thread/cpu .prv/.pcf/.row (time order, row range, "
               "duration = last event time, types declared, state values labelled, row names in documented order) and the "
-              "timelines equal the Lean reference emulator's. Found and repaired: cpu.pcf did not declare CPU types 1,2,3."),
-        note=TB + "; PCF contents and row names are checked on the files (oracle), the model states which types are declared; "
-             "task-type and mark labels (dynamic) are covered by C07/C17",
+              "timelines equal the Lean reference emulator's. Text level (Props/C13Text): Emu/PvLines (the whole patch bay incl. "
+              "system channels in emu_connect order, handler write order -> the exact emitted lines) + Emu/PvText (printf-exact "
+              ".prv/.row/.pcf incl. the header rewritten at close and the MAX_P*F_LABEL refusals): prv_roundtrip for all numbers, "
+              "header_rewrite_same_length_iff (exact bound -10^19 < d < 10^20, every int64 inside, corruption beyond by decide), "
+              "files_wellformed: for every accepted history the .prv TEXT parses, duration = last clock, times non-decreasing "
+              "and <= duration, rows within 1..nrows, every type declared by the .pcf TEXT, .row reads back one name per row in "
+              "gindex order. Tie: the six files BYTE FOR BYTE (no canonicalisation, same-timestamp order included) on every "
+              "accepted mixed/wide/mark trace (task-type traces: .pcf/.row only; -b traces: self-check only). Found and "
+              "repaired: cpu.pcf did not declare CPU types 1,2,3."),
+        note=TB + "; thread-name strings and the type names of thread.c/cpu.c are hard-coded in PvText (the byte tie catches any drift); "
+             ".prv text of task-event traces and breakdown files are outside the text model",
         technique="Lean 4 invariant proof over the PRV writer + record typing lemma + independent parsers on ovniemu output",
         design="DESIGN.md §5 C13"),
     "C14": dict(
@@ -386,7 +398,7 @@ CHECKS = {
         technique="Lean 4 termination/bounds theorems over a byte-level cursor + sanitizer-instrumented mutation runs of the four tools",
         design="DESIGN.md §5 C19"),
     "C20": dict(
-        text=("Theorems (Props/C20.lean, 34): sort_replace = insertSorted . erase under its preconditions, hence sorted and an exact "
+        text=("Theorems (Props/C20.lean, 48): sort_replace = insertSorted . erase under its preconditions, hence sorted and an exact "
               "multiset update (sort_replace_spec, sort_replace_sorted_multiset); after every history of input changes the sort "
               "rows are non-decreasing and a permutation of the inputs (rows_are_sorted_values, for any qsort that returns a sorted "
               "permutation, any n); an output is written iff its value changes, in increasing index order (minimal_writes, "
@@ -396,13 +408,16 @@ CHECKS = {
               "CPU's task-type/subsystem/idle channels enter the dirty list (orderOk) is DERIVED from the registration order of "
               "the connected bay for thread-state and affinity events (dirty_level_ordered_sys, _thread_events, "
               "_affinity_events) and for the task events VTx/VTe/VTp/VTr and their Nanos6 analogues (dirty_level_ordered_task, "
-              "_emu: the C order is ss before tt, idle is not written); OPEN: table events writing the idle channel (VPp/VPr/VPa); system_rows: rows = "
+              "_emu: the C order is ss before tt, idle is not written) and for every table event, idle rows included "
+              "(dirty_level_ordered_table, idle_rows: a table event writes the one channel its row names); after a task event the "
+              "CPU's breakdown sees a sublist of [ss, tt], exactly [ss, tt] for x/e and [tt] for p/r on the CPU running the thread "
+              "(task_event_dirty_positions, task_event_dirty_exact); system_rows: rows = "
               "sorted(per-CPU values). Tie: the real sort.c and the real nosv/nanos6 breakdown.c (connect_cpu, select_tr, "
               "select_idle) in an ASan/UBSan harness, bounded-exhaustive + random, vs the Lean model and a property oracle; "
               "`ovniemu -b -l` on random nOS-V/Nanos6 traces vs an oracle recomputed from cpu.prv and vs the model. Four "
               "known findings (stale mux0 selection), see KNOWN_FINDINGS.txt."),
-        note=TB + "; qsort assumed to return a sorted permutation; the CPU-channel dirty order is a hypothesis checked by the "
-             "correspondence; the projection of the global walk onto one CPU is checked at run time, not proved",
+        note=TB + "; qsort assumed to return a sorted permutation; the CPU-channel dirty order is derived for every event class of the reference "
+             "emulator (the breakdown muxes themselves are not part of bayOf); the projection of the global walk onto one CPU is checked at run time, not proved",
         technique="Lean 4 refinement/invariant theorems over sort.c and the breakdown muxes + differential runs (C harness, ovniemu -b)",
         design="DESIGN.md §5 C20"),
 }
